@@ -246,6 +246,34 @@ pub fn run(ctx: &mut Ctx) {
     }
 }
 
+/// c11w: event streams through `write_http_response` itself (head + chunked body), among them events that do not fit the
+/// encoder's read slice: everything before the failure is on the wire, the failure is reported, and the stream is *not*
+/// terminated (only the senders' going away ends an event stream).  Judged by the c08 oracle.
+pub fn run_c11w(ctx: &mut Ctx) {
+    let long_line = vec![b'a'; 70_000];
+    let many_lines: Vec<u8> = (0..9000).flat_map(|i| format!("line{i}\n").into_bytes()).collect();
+    let exact = vec![b'b'; 65_528 - 7];
+    let families: Vec<String> = vec![
+        format!("E:m{},m{}", hex(b"msg1"), hex(&long_line)),
+        format!("E:m{}", hex(&long_line)),
+        format!("E:m{},c{}.{}", hex(b"one"), hex(b"t"), hex(&many_lines)),
+        format!("E:m{},m{},m{}", hex(b"one"), hex(&exact), hex(b"three")),
+        format!("E:m{},m{},m{}", hex(b"one"), hex(&long_line), hex(b"never")),
+        format!("E:m{},c{}.{}", hex(b"one\ntwo"), hex(b"t"), hex(b"three")),
+        "E:".to_string(),
+    ];
+    let mut idx = 0u64;
+    for body in &families {
+        for close in ["0", "1"] {
+            for ws in [vec![], vec![1000], vec![7, 4096]] {
+                idx += 1;
+                if !ctx.mine(idx) { continue; }
+                case(ctx, "c08", &["200", "K:EventStream", "", body, close, &sizes_str(&ws), "99999999", "0"]);
+            }
+        }
+    }
+}
+
 /// C08: write error at every byte offset; body files truncated / missing.
 pub fn run_c08(ctx: &mut Ctx) {
     let mut rng = Rng::new(ctx.seed.wrapping_add(8));
